@@ -33,6 +33,7 @@ type c20Prog struct {
 	NoMatch bool `json:"nomatch,omitempty"` // the first task also has a glob dependency that matches nothing
 	Big     int  `json:"big,omitempty"`     // every task has a further command that writes this many KiB to each stream
 	Bg      bool `json:"bg,omitempty"`      // every task: a command that leaves a background job writing later, then a slower command
+	Mixed   bool `json:"mixed,omitempty"`   // the first task has no file dependency (it always executes), the others have one
 	Gaps    bool `json:"gaps,omitempty"`    // docstrings and values hold runs of several blanks
 	Long    bool `json:"long,omitempty"`    // docstrings and variable values are longer than a terminal line; listings also go through a pseudo terminal
 }
@@ -156,7 +157,7 @@ func (p c20Prog) text() string {
 		if p.Chain && i > 0 {
 			deps = append(deps, names[i-1])
 		}
-		if p.FileDep {
+		if p.FileDep && !(p.Mixed && i == 0) {
 			deps = append(deps, `"`+n+`.txt"`)
 		}
 		if p.NoMatch && i == 0 {
@@ -203,6 +204,9 @@ func c20Progs(tier string) []c20Prog {
 								}
 								if nt <= 2 && nc == 0 && nv == 0 && fd && !docs && !def {
 									out = append(out, c20Prog{NTasks: nt, Chain: chain, FileDep: fd, Bg: true})
+								}
+								if nt >= 2 && nt <= 3 && nc >= 1 && nv == 0 && fd && !docs && !def {
+									out = append(out, c20Prog{NTasks: nt, NCmds: nc, Chain: chain, FileDep: fd, Mixed: true})
 								}
 								if docs && nc == 1 && fd && nt <= 2 && nv == 2 {
 									out = append(out, c20Prog{NTasks: nt, Docs: true, Default: def, NCmds: nc, NVars: nv, Chain: chain, FileDep: fd, Gaps: true})
@@ -553,6 +557,24 @@ func c20Run(root string, p c20Prog) (obs []c20Obs, inv int) {
 			add("--json without task names (default task)", p.checkJSON(o.Stdout, []string{"default"}, readLog(vlog), nil))
 		}
 	}
+	// --quiet with the actions that are not runs: nothing on standard output either
+	for _, a := range [][]string{{"--init", "--quiet"}, {"--fmt", "--quiet"}, {"--quiet", "--clean"}} {
+		dir := proj
+		if a[0] == "--init" {
+			dir = t.Mkdir("home/w/fresh")
+			os.Remove(filepath.Join(dir, "spokfile"))
+			os.Remove(filepath.Join(dir, ".gitignore"))
+		}
+		if a[1] == "--clean" && p.Default {
+			continue // --clean is not what this program is about when a task may be named clean; keep to the plain case
+		}
+		qo := bin.Run(dir, home, env, a...)
+		inv++
+		if qo.Exit == 0 && !qo.Died() && qo.Stdout != "" {
+			obs = append(obs, c20Obs{"quiet-not-quiet", fmt.Sprintf("`spok %s` wrote to standard output: %q", strings.Join(a, " "), clip(qo.Stdout))})
+		}
+	}
+	t.File("home/w/proj/spokfile", p.text())
 	// --quiet
 	os.RemoveAll(filepath.Join(proj, ".spok"))
 	os.Remove(vlog)
@@ -586,6 +608,9 @@ func c20Run(root string, p c20Prog) (obs []c20Obs, inv int) {
 				for _, c := range p.closure(r) {
 					exp[c] = rep == 1
 				}
+			}
+			if p.Mixed {
+				exp[names[0]] = false // no file dependency: executes every time
 			}
 		}
 		add(fmt.Sprintf("--json run %d of %v", rep+1, req), p.checkJSON(o.Stdout, req, readLog(vlog), exp))
